@@ -18,6 +18,9 @@ type CharSet struct {
 	sub        *CharSet //optional subtractor
 	negate     bool
 	anything   bool
+	// normalized is set when canonicalize rewrote "everything but one range" as a negated
+	// single range; members added later must see the positive form again (see denormalize).
+	normalized bool
 
 	ascii *asciiBitmap
 }
@@ -554,6 +557,7 @@ func (c *CharSet) addSet(set CharSet) {
 		c.makeAnything()
 		return
 	}
+	c.denormalize()
 	// just append here to prevent double-canon
 	c.ranges = append(c.ranges, set.ranges...)
 	c.addCategories(set.categories...)
@@ -573,6 +577,7 @@ func (c *CharSet) addCategories(cats ...Category) {
 		// just return, we're as broad as we can get
 		return
 	}
+	c.denormalize()
 
 	for _, ct := range cats {
 		found := false
@@ -600,6 +605,7 @@ func (c *CharSet) addRanges(ranges []SingleRange) {
 	if c.anything {
 		return
 	}
+	c.denormalize()
 	c.ranges = append(c.ranges, ranges...)
 	c.canonicalize()
 }
@@ -609,6 +615,7 @@ func (c *CharSet) addNegativeRanges(ranges []SingleRange) {
 	if c.anything {
 		return
 	}
+	c.denormalize()
 
 	var hi rune
 
@@ -746,8 +753,31 @@ func (c *CharSet) addSubtraction(sub *CharSet) {
 }
 
 func (c *CharSet) addRange(chMin, chMax rune) {
+	c.denormalize()
 	c.ranges = append(c.ranges, SingleRange{First: chMin, Last: chMax})
 	c.canonicalize()
+}
+
+// denormalize undoes the negated-single-range form produced by canonicalize while
+// the class is still being built, so that further members are added to the set
+// itself and not to its complement.
+func (c *CharSet) denormalize() {
+	if !c.normalized {
+		return
+	}
+	c.normalized = false
+	c.negate = false
+	if len(c.ranges) != 1 {
+		return
+	}
+	r := c.ranges[0]
+	c.ranges = c.ranges[:0]
+	if r.First > 0 {
+		c.ranges = append(c.ranges, SingleRange{0, r.First - 1})
+	}
+	if r.Last < unicode.MaxRune {
+		c.ranges = append(c.ranges, SingleRange{r.Last + 1, unicode.MaxRune})
+	}
 }
 
 func (c *CharSet) addNamedASCII(name string, negate bool) bool {
@@ -866,6 +896,7 @@ func (c *CharSet) canonicalize() {
 				c.ranges[0].Last < c.ranges[1].First-1 {
 				c.ranges = []SingleRange{{c.ranges[0].Last + 1, c.ranges[1].First - 1}}
 				c.negate = true
+				c.normalized = true
 			}
 		} else if len(c.ranges) == 1 {
 			switch c.ranges[0].First {
@@ -874,12 +905,14 @@ func (c *CharSet) canonicalize() {
 				if c.ranges[0].Last == unicode.MaxRune-1 {
 					c.ranges[0] = SingleRange{unicode.MaxRune, unicode.MaxRune}
 					c.negate = true
+					c.normalized = true
 				}
 			case 1:
 				// Or everything but the first char?
 				if c.ranges[0].Last >= unicode.MaxRune {
 					c.ranges[0] = SingleRange{'\x00', '\x00'}
 					c.negate = true
+					c.normalized = true
 				}
 			}
 		}
